@@ -87,7 +87,7 @@ var programFrames = []string{modPrefix, "\nmain.", "\nverif/"}
 // parked goroutines must have marker on its stack. The parked goroutines are
 // returned for the report.
 func ParkedGoroutines(dump, marker string) (bool, string) {
-	var kept []string
+	var kept, sleepers []string
 	inMarker := marker == ""
 	for _, blk := range strings.Split(strings.ReplaceAll(dump, "\r\n", "\n"), "\n\n") {
 		blk = strings.TrimSpace(blk)
@@ -111,6 +111,12 @@ func ParkedGoroutines(dump, marker string) (bool, string) {
 			if marker != "" && strings.Contains(blk, marker) {
 				inMarker = true
 			}
+		case strings.HasPrefix(st, "sleep"):
+			// a goroutine that sleeps between two looks at something (the
+			// matching pipeline polls every millisecond for the end of its
+			// workers): it cannot make anything happen by itself; it counts as
+			// parked when goroutines parked for good are there as well
+			sleepers = append(sleepers, blk)
 		default:
 			return false, ""
 		}
@@ -118,6 +124,7 @@ func ParkedGoroutines(dump, marker string) (bool, string) {
 	if len(kept) == 0 || !inMarker {
 		return false, ""
 	}
+	kept = append(kept, sleepers...)
 	return true, strings.Join(kept, "\n\n")
 }
 
@@ -201,6 +208,7 @@ func RunProcess(bin string, args []string, env []string, cpuSeconds int, watchdo
 	go func() { done <- cmd.Wait() }()
 	const idleSamples = 24 // x 250 ms = 6 s without a single clock tick of CPU
 	last, idle := int64(-1), 0
+	var window []int64
 	start := time.Now()
 	res := ProcResult{}
 	for {
@@ -230,11 +238,20 @@ func RunProcess(bin string, args []string, env []string, cpuSeconds int, watchdo
 		if !ok {
 			continue
 		}
-		if t == last {
-			idle++
-		} else {
-			idle, last = 0, t
+		// "No progress" is next to no CPU time over the last idleSamples samples
+		// (at most 30 clock ticks, 5 % of one processor, in 6 s): a dead-locked
+		// program may still have a ticker that redraws a progress bar, or a
+		// goroutine that polls every millisecond for results that cannot come.
+		// It only decides when to ask for the goroutine dump, not the verdict.
+		window = append(window, t)
+		if len(window) > idleSamples+1 {
+			window = window[1:]
 		}
+		idle = 0
+		if len(window) == idleSamples+1 && t-window[0] <= 30 {
+			idle = idleSamples
+		}
+		_ = last
 		if idle >= idleSamples {
 			// ask the Go runtime for all goroutines; the process ends with the dump
 			before := buf.Len()
